@@ -112,7 +112,7 @@ theorem isinSpeedup_encode (tests col : List Bytes) (hs : SortedLe tests) :
     isinSpeedup tests (encode col).1 (encode col).2 = .ok (Spec.isin col tests) := by
   unfold isinSpeedup
   rw [encode_rows, isinLoop_encode tests col hs col.length 0 [] (by omega)]
-  simp [Spec.isin, List.contains_iff_mem]
+  simp [Spec.isin]
 
 theorem sortedStr_sorted (xs : List Bytes) : SortedLe (sortedStr xs) :=
   List.pairwise_mergeSort bytesLe_trans bytesLe_total xs
